@@ -86,6 +86,8 @@ def make_callers(depth, name, subset, role, raw, formula, ns, data, env):
                 lines.append(f"    def {name}(v):\n        return np.full(len(v), {300.0 + level})")
             elif role.startswith("dotted"):
                 lines.append(f"    {name} = _mk_ns({300.0 + level})")
+            elif role == "arg-dotted":
+                pass  # a dotted name cannot be a local variable; the decoy object below can
             elif role == "argument-none" and NONE_IN[0] == "locals":
                 lines.append(f"    {name} = None")
             else:
@@ -100,6 +102,9 @@ def make_callers(depth, name, subset, role, raw, formula, ns, data, env):
             g["_inner"] = nxt
         if "globals" in subset and not name.isidentifier() is False:
             pass
+        if role == "arg-dotted":
+            # decoy: an object called like the first segment, whose attribute must NOT be used for an argument
+            g[name.split(".")[0]] = types.SimpleNamespace(**{name.split(".")[1]: 777.0})
         if "globals" in subset:
             if role == "callee":
                 g[name] = (lambda lv: (lambda v: np.full(len(v), 400.0 + lv)))(level)
@@ -147,6 +152,7 @@ def configs(tier):
                     out.append(("callee", nm, True, sub, env))
             if "locals" not in sub:  # a name that is not an identifier cannot be a local variable
                 out.append(("bq-argument", "my name", False, sub, env))
+                out.append(("arg-dotted", "zq.attr", False, sub, env))
     return out
 
 
@@ -182,7 +188,7 @@ def run_config(cfg, raw, m):
             ns[name] = 50.0
     q = f"`{name}`" if role == "bq-argument" else name
     formula = {"argument": f"y ~ rec({q})", "bq-argument": f"y ~ rec({q})", "argument-none": f"y ~ rec({q})",
-               "kwvalue": f"y ~ rec(x, w={q})", "kwexpr": f"y ~ rec(x, w={q} * 2)", "kwcall": f"y ~ rec(x, w=np.abs({q}))", "callee": f"y ~ {name}(x)", "dotted1": f"y ~ {name}.fn(x)",
+               "arg-dotted": f"y ~ rec({q})", "kwvalue": f"y ~ rec(x, w={q})", "kwexpr": f"y ~ rec(x, w={q} * 2)", "kwcall": f"y ~ rec(x, w=np.abs({q}))", "callee": f"y ~ {name}(x)", "dotted1": f"y ~ {name}.fn(x)",
                "dotted2": f"y ~ {name}.sub.fn(x)"}[role]
     depth = 3
     outer = make_callers(depth, name, subset, role, raw, formula, ns, data, env)
@@ -218,6 +224,8 @@ def run_config(cfg, raw, m):
                 winner = "builtin"
             elif obj is None:
                 winner, level = NONE_IN[0], env
+            elif isinstance(obj, float) and obj == 777.0:
+                winner = "decoy-attribute-access"
             elif isinstance(obj, float):
                 winner = "extra" if obj == 50.0 else ("locals" if obj < 400 else "globals")
                 level = None if obj == 50.0 else int(obj) % 100
@@ -230,7 +238,7 @@ def judge(cfg, m):
     role, name, is_builtin, subset, env = cfg
     case = {"role": role, "name": name, "builtin": is_builtin, "scopes": list(subset), "env": env}
     m.current_case = case
-    want = expected_winner(role if role != "argument-none" else "argument", is_builtin, subset)
+    want = expected_winner(role if role not in ("argument-none", "arg-dotted") else "argument", is_builtin, subset)
     # role argument-none: the scope that must win (when it is locals / globals / extra) binds the name to None
     NONE_IN[0] = want if (role == "argument-none" and want in ("locals", "globals", "extra")) else None
     res = {}
@@ -264,7 +272,68 @@ def judge(cfg, m):
     m.cls("role:" + role, "winner:" + want, "env:%d" % env, "ndef:%d" % (len(subset) + is_builtin))
 
 
+def judge_env_object(m):
+    """One Environment object owned by the caller and handed to several calls: each call sees ITS OWN
+    extra_namespace behind the environment's scopes, and nothing of an earlier call's."""
+    import formulae
+    from formulae.environment import Environment
+
+    rng = np.random.default_rng(5)
+    data = pd.DataFrame({"y": rng.normal(size=6), "x": rng.normal(size=6)})
+    env = Environment([{"loc": 300.0}, {"np": np, "glob": 400.0}])
+    case = {"role": "env-object-reuse"}
+    m.current_case = case
+    m.case(case, canon="env-object-reuse")
+    for k, (val, expect) in enumerate(((50.0, 50.0), (51.0, 51.0), (None, None))):
+        rec = Recorder()
+        ns = {"rec": rec}
+        if val is not None:
+            ns["extra_only"] = val
+        m.ev("first-defining-scope-wins" if expect is not None else "undefined-name-raises")
+        try:
+            formulae.design_matrices("y ~ rec(extra_only) + rec(loc) + rec(glob)", data, env=env, extra_namespace=ns)
+            got = [a[0][0] for a in rec.args]
+            if expect is None:
+                m.violation("undefined-name-raises", f"call {k}: 'extra_only' is defined nowhere for this call but resolved to {got[0]!r} "
+                            "(left over from an earlier call with the same Environment object)", case=case, key="env-object:leak")
+            elif got != [expect, 300.0, 400.0]:
+                m.violation("first-defining-scope-wins", f"call {k} with the same Environment object: arguments {got}, expected {[expect, 300.0, 400.0]}",
+                            case=case, key="env-object:stale")
+        except Exception as e:
+            if expect is not None:
+                m.violation("first-defining-scope-wins", f"call {k}: {type(e).__name__}: {e}", case=case, key="env-object:raises")
+
+
+def judge_newdata_precedence(m):
+    """At prediction the data frame is the NEW frame: a name that came from the caller's scope at training
+    time is taken from the new frame when the new frame has such a column (data frame first)."""
+    import formulae
+
+    rng = np.random.default_rng(6)
+    data = pd.DataFrame({"y": rng.normal(size=6), "x": rng.normal(size=6)})
+    case = {"role": "newdata-precedence"}
+    m.current_case = case
+    m.case(case, canon="newdata-precedence")
+    rec = Recorder()
+    zq = 300.0  # noqa: F841  (caller's local, used by the formula at training time)
+    dm = formulae.design_matrices("y ~ rec(x, w=zq) + rec(zq)", data, extra_namespace={"rec": rec})
+    trained = [a for a in rec.args]
+    new = pd.DataFrame({"x": rng.normal(size=4), "zq": np.full(4, 10.0)})
+    rec.args.clear()
+    REC_N[0] = 4
+    dm.common.evaluate_new_data(new)
+    REC_N[0] = 6
+    m.ev("first-defining-scope-wins")
+    seen = [a[1].get("w", a[0][0] if a[0] else None) if a[1] else a[0][0] for a in rec.args]
+    if not all(isinstance(v, pd.Series) and float(v.iloc[0]) == 10.0 for v in seen) or len(seen) != 2:
+        m.violation("first-defining-scope-wins", f"new frame has a column 'zq' but the call received {[type(v).__name__ for v in seen]} "
+                    f"(training time: {[type(a[0][0]).__name__ for a in trained]})", case=case, key="newdata:data-frame-not-first")
+
+
 def run_shard(i, n, tier, seed, m):
+    if i == 0:
+        core.guarded(judge_env_object)(m)
+        core.guarded(judge_newdata_precedence)(m)
     for k, cfg in enumerate(configs(tier)):
         if k % n != i:
             continue
